@@ -689,6 +689,7 @@ def c05(tier, seed, work):
                    "other payload types.")
     res = add_walk(res, work, [dict(name="c05-discovery", module="MCGenCipher", cfg_tpl="Gen_Cipher.cfg.tpl", family="discovery", tier=tier, seed=seed),
                                dict(name="c05-endless", module="MCGenCipher", cfg_tpl="Gen_Cipher.cfg.tpl", family="endless", tier=tier, seed=seed),
+                               dict(name="c05-dcmi-odd", module="MCGenDcmi", cfg_tpl="Gen_Cipher.cfg.tpl", family="odd", tier=tier, seed=seed),
                                dict(name="c05-sdr", module="MCGenSdr", cfg_tpl="Gen_Cipher.cfg.tpl", family="plain", tier="quick", seed=seed, opts={"exact": True}),
                                dict(name="c05-sdr-faults", module="MCGenSdr", cfg_tpl="Gen_Cipher.cfg.tpl", family="faults", tier=tier, seed=seed, opts={"exact": True}),
                                dict(name="c05-sdr-faults-buf", module="MCGenSdr", cfg_tpl="Gen_Cipher.cfg.tpl", family="faults", tier=tier, seed=seed)],
@@ -782,6 +783,11 @@ def c13(tier, seed, work):
     # commands whose response has no body (nothing but a received datagram distinguishes success from silence)
     a, i = suite_for(seed, 4)
     d = 2 if tier == "quick" else 3
+    odd = F.walk_family(work, "c13-dcmi-odd", "MCGenDcmi", "Gen_Cipher.cfg.tpl", "odd", tier, seed)
+    require_accepted([odd])
+    ov = flatten(odd)
+    attach_scripts(ov)
+    viols += ov
     cons = [F.console_family(work, "c13-nobody-s", True, "CmdsAC", 2, d, "KindsRetry", a, i),
             F.console_family(work, "c13-nobody-n", False, "CmdsCR", 2, d, "KindsRetryNS", 1, 1)]
     require_accepted(cons)
